@@ -646,7 +646,8 @@ def shared_dirfd_threads(w, report, rounds: int = 6, nthreads: int = 8) -> int:
 PARKED = r"""
 import sys, os, json, resource
 sys.path.insert(0, sys.argv[1])
-import common  # noqa: F401  (puts the library under test on sys.path)
+import common
+common.import_wcmatch()          # the library under test (WCMATCH_REPO) first on sys.path
 from wcmatch import glob as G, pathlib as WP
 top, outp = sys.argv[2], sys.argv[3]
 soft, hard = resource.getrlimit(resource.RLIMIT_NOFILE)
